@@ -116,7 +116,31 @@ def invalid_argument_calls():
         ("handle.insert(non-point)", lambda db: db.measurement("m0").insert("p")),
         ("handle.select(bad key)", lambda db: db.measurement("m0").select("tags.", Q)),
         ("get_tag_values(non-iterable)", lambda db: db.get_tag_values(5)),
-    ]
+    ] + mixed_valid_invalid_update_calls()
+
+
+def mixed_valid_invalid_update_calls():
+    """update / update_all / handle.update with one VALID static argument next to one INVALID one, for every ordered
+    pair of argument kinds and a query that matches every point: whichever argument the implementation looks at
+    first, nothing may have been applied when the call raises."""
+    from datetime import datetime, timezone
+
+    from tinyflux import MeasurementQuery
+
+    ALL = MeasurementQuery().noop()
+    valid = {"time": datetime(2030, 1, 2, 3, 4, 5, 6, tzinfo=timezone.utc), "measurement": "moved", "tags": {"k": "new", "zz": "1"},
+             "fields": {"x": 99, "zz": 1.5}, "unset_tags": "k", "unset_fields": ["x"]}
+    invalid = {"time": "yesterday", "measurement": 123, "tags": {"k": 5}, "fields": {"x": "a"}, "unset_tags": 5, "unset_fields": [1]}
+    out = []
+    for good in valid:
+        for bad in invalid:
+            if good == bad:
+                continue
+            kw = {good: valid[good], bad: invalid[bad]}
+            out.append((f"update({good}=valid, {bad}=invalid)", lambda db, kw=kw: db.update(ALL, **kw)))
+            out.append((f"update_all({good}=valid, {bad}=invalid)", lambda db, kw=kw: db.update_all(**kw)))
+            out.append((f"handle.update({good}=valid, {bad}=invalid)", lambda db, kw=kw: db.measurement("m0").update(ALL, **kw)))
+    return out
 
 
 def in_place_mutation_signature(pre, post, sel, k, slot, cfg, good_update=None):
